@@ -290,6 +290,20 @@ def selftest_determinism(mod, plan, tier, base_seed, idxs) -> Dict[str, Any]:
             "fresh_rc": p.returncode, "fresh_stderr_tail": p.stderr[-500:] if diffs_fresh else ""}
 
 
+def tree_under_test() -> dict:
+    """Which ariadne_codegen the run imported, and whether that working tree differs from its HEAD."""
+    import subprocess
+    try:
+        import ariadne_codegen
+        root = os.path.dirname(os.path.dirname(os.path.realpath(ariadne_codegen.__file__)))
+        head = subprocess.run(["git", "-C", root, "rev-parse", "--short", "HEAD"], capture_output=True, text=True, timeout=20).stdout.strip()
+        dirty = subprocess.run(["git", "-C", root, "status", "--porcelain", "--untracked-files=no"], capture_output=True, text=True,
+                               timeout=20).stdout.strip().splitlines()
+        return {"path": root, "git_head": head, "modified_files": [d.strip() for d in dirty][:20]}
+    except Exception as e:  # noqa
+        return {"error": repr(e)}
+
+
 # ---------------------------------------------------------------------------------
 # main driver
 
@@ -438,6 +452,7 @@ def run_check(mod, tier: str, base_seed: int, budget_s: Optional[float], workers
         "violation_classes_seen": {ck: len(lst) for ck, lst in sorted(by_cls.items())},
         "workers": workers,
         "harness_errors": [h["tb"][-600:] for h in agg["harness"][:5]],
+        "tree_under_test": tree_under_test(),
     }
     if hasattr(mod, "evidence"):
         cov.update(mod.evidence(agg))
